@@ -91,13 +91,15 @@ XmlClauses(e) ==
           \cup (IF ~e.doc.json.reread \/ r.counts["Factor"] = e.doc.json.nfac THEN {} ELSE {"xml_factor_elements"})
 
 \* two renderings of the same input: same entries in the same order; a printed number may differ by one
-\* unit of its last digit (the f32 sums are accumulated in hash order, which differs between runs)
+\* unit of its last digit plus a few f32 units in the last place of the value (2^-21 relative): the f32 sums
+\* are accumulated in hash order, which differs between runs
+Near(a, b) == AbsI(a - b) <= 1 + (AbsI(a) \div 2000000)
 SamePlain(a, b) ==
   /\ Len(a) = Len(b)
-  /\ \A i \in 1..Len(a) : a[i][1] = b[i][1] /\ a[i][2] = b[i][2] /\ a[i][3] = b[i][3] /\ a[i][5] = b[i][5] /\ AbsI(a[i][4] - b[i][4]) <= 1
+  /\ \A i \in 1..Len(a) : a[i][1] = b[i][1] /\ a[i][2] = b[i][2] /\ a[i][3] = b[i][3] /\ a[i][5] = b[i][5] /\ Near(a[i][4], b[i][4])
 SameXml(a, b) ==
   /\ Len(a) = Len(b)
-  /\ \A i \in 1..Len(a) : a[i] = b[i] \/ (Len(a[i]) = 4 /\ Len(b[i]) = 4 /\ a[i][1] = b[i][1] /\ a[i][4] = b[i][4] /\ AbsI(a[i][3] - b[i][3]) <= 1)
+  /\ \A i \in 1..Len(a) : a[i] = b[i] \/ (Len(a[i]) = 4 /\ Len(b[i]) = 4 /\ a[i][1] = b[i][1] /\ a[i][4] = b[i][4] /\ Near(a[i][3], b[i][3]))
 JsonClauses(e) ==
   IF ~e.doc.json.valid THEN {"json_not_produced"}
   ELSE IF ~e.doc.json.reread THEN {"json_not_readable_back"}
